@@ -200,6 +200,11 @@ def _splitting(prog, ci, c, fn, unroll):
             problems.append(f"drift coefficients {drifts} are not all eps")
         if fn.name == "bounded_leapfrog" and any(w[0] == "D" for w in word):
             problems.append("a drift of the bounded scheme is not followed by reflect + momentum flip")
+    # what is handed back is the integrated state, position first: (t, r)
+    for rt in [n for n in ast.walk(fn) if isinstance(n, ast.Return)]:
+        if not (isinstance(rt.value, ast.Tuple) and [U(e) for e in rt.value.elts] == [t, r]):
+            problems.append(f"line {rt.lineno} returns `{U(rt.value) if rt.value is not None else None}`, not the integrated state ({t}, {r}) "
+                            f"(position, momentum)")
     o1 = struct_ob("splitting-structure", qual(c, fn), not problems and bool(words), "; ".join(problems[:2]), HMC, fn.lineno,
                    slots={"words": ["".join(x[0] for x in w) for w in words][:6]})
     o2 = struct_ob("shear", qual(c, fn), not shear_problems, "; ".join(sorted(set(shear_problems))[:2]), HMC, fn.lineno)
@@ -253,6 +258,17 @@ def _fd_denominator(c, fd):
                                 f"posterior(probe) - posterior({tparam}): a stored log-probability is tempered and belongs to another call")
         else:
             problems.append(f"numerator `{U(num)}` is not a difference of two posterior evaluations")
+        # one quotient per coordinate: the loop holding it runs over every index of the point, from 0
+        tparam = fd.args.args[1].arg
+        loops = [l for l in ast.walk(fd) if isinstance(l, ast.For) and any(x is quot[0] for x in ast.walk(l))]
+        if loops:
+            it = loops[-1].iter
+            full = isinstance(it, ast.Call) and U(it.func) == "range" and len(it.args) == 1 and not it.keywords \
+                and U(it.args[0]) in ("self.n_parameters", f"{tparam}.size", f"len({tparam})", f"{tparam}.shape[0]")
+            full = full or (isinstance(it, ast.Call) and U(it.func) == "enumerate" and len(it.args) == 1 and U(it.args[0]) == tparam)
+            if not full:
+                problems.append(f"the coordinate loop runs over `{U(it)}`, not over every index of `{tparam}`: the coordinates left out keep a "
+                                f"zero in the estimated gradient")
     return struct_ob("fd-denominator", qual(c, fd), not problems, "; ".join(problems), HMC, fd.lineno)
 
 
